@@ -207,7 +207,7 @@ struct C13 : Scenario {
       return { "lexicons_created", "lexicons_destroyed", "batteries", "accessor_reads", "route_checks", "use_ops", "lexicons_coexisting", "lexicon_recreated_in_place", "heap.reused_blocks", "heap.lifo_runs" };
    }
    std::vector<std::string> assumptions() const override { return { "'static' means: inside the executable image (the library is linked statically into the simulator)" }; }
-   size_t search_count(int tier) const override { return tier == 0 ? 1200 : 120000; }
+   size_t search_count(int tier) const override { return tier == 0 ? 4000 : 120000; }
    size_t prologue_count(int) const override { return 4; }
    Plan prologue(size_t i, int) const override
    {
@@ -369,7 +369,7 @@ struct C19 : Scenario {
       }
       return p;
    }
-   size_t search_count(int tier) const override { return tier == 0 ? 1000 : 100000; }
+   size_t search_count(int tier) const override { return tier == 0 ? 3000 : 100000; }
    Plan generate(uint64_t run_seed, int) const override
    {
       Rng r(run_seed);
